@@ -509,10 +509,12 @@ PROPS['C17'] = dict(
 
 # ---------------------------------------------------------------- C18
 def c18_jobs(tier):
-    jobs = [Job('pairs', 'c18', 'pairs', 0, timeout=q(tier, 900, 3600)), Job('scalars', 'c18', 'scalars', 0)]
+    jobs = [Job('pairs', 'c18', 'pairs', 0, timeout=q(tier, 900, 3600)), Job('scalars', 'c18', 'scalars', 0),
+            Job('containers', 'c18', 'containers', q(tier, 300000, 20000000), timeout=q(tier, 900, 7200))]
     if tier == 'thorough':
         for i, cfg in enumerate([{'ARDUINOJSON_USE_DOUBLE': 0}, {'ARDUINOJSON_SLOT_ID_SIZE': 2, 'ARDUINOJSON_STRING_LENGTH_SIZE': 1, 'ARDUINOJSON_DEBUG': 1}]):
-            jobs += [Job('pairs-cfg%d' % i, 'c18', 'pairs', 0, defines=cfg, timeout=3600), Job('scalars-cfg%d' % i, 'c18', 'scalars', 0, defines=cfg)]
+            jobs += [Job('pairs-cfg%d' % i, 'c18', 'pairs', 0, defines=cfg, timeout=3600), Job('scalars-cfg%d' % i, 'c18', 'scalars', 0, defines=cfg),
+                     Job('containers-cfg%d' % i, 'c18', 'containers', 4000000, defines=cfg, timeout=7200)]
     return jobs
 
 
